@@ -695,6 +695,10 @@ struct World {
 }
 
 fn build_world(s: &Setup) -> RigResult<World> {
+    // self-test of the inconclusive path: `C02_FORCE_SETUP_FAIL=1 faults …`
+    if std::env::var("C02_FORCE_SETUP_FAIL").is_ok() {
+        return Err(RigError::Setup("forced by C02_FORCE_SETUP_FAIL".into()));
+    }
     let mut w = Worker::start(WorkerOpts {
         front_timeout: Some(s.ft),
         back_timeout: Some(s.bt),
@@ -1007,10 +1011,17 @@ impl Area for Faults {
                     attempt += 1;
                     run.tags.push("rig-setup-retried".into());
                     let _ = e;
-                    thread::sleep(Duration::from_millis(1500));
+                    thread::sleep(Duration::from_millis(if std::env::var("C02_FORCE_SETUP_FAIL").is_ok() { 1 } else { 1500 }));
                 }
                 Err(e) => {
-                    run.oracle.push(("rig-setup-failed".into(), format!("{e}")));
+                    // nothing of this case ever reached sozu: it says nothing about the
+                    // property (counted; the run fails when more than 5 % of the cases end so)
+                    let _ = e;
+                    run.tags.push("inconclusive:rig-setup-failed".into());
+                    run.out.push("ok".into());
+                    for line in &ops[1..] {
+                        run.out.push(if parse_req(line).is_some() { "obs inconclusive".into() } else { "bad-op".into() });
+                    }
                     return run;
                 }
             }
@@ -1059,13 +1070,24 @@ impl Area for Faults {
                 // (a holder left idle is closed by sozu's front timer: take a fresh one)
                 holders.clear();
                 // another frontend connection of this IP already holds the cluster's only slot
-                if let Ok(mut h) = RawConn::connect(front) {
-                    let _ = h.write_all(b"GET /hold HTTP/1.1\r\nHost: lim.test\r\n\r\n", Duration::from_secs(1));
-                    let ho = observe(&mut h, Instant::now(), Duration::from_secs(2), Duration::ZERO);
-                    if ho.status != Some(200) {
-                        run.oracle.push(("limit-holder-not-served".into(), format!("{:?}", ho.status)));
+                // (part of the set-up of this request: if it cannot be had, the request says nothing)
+                let mut held = false;
+                for _ in 0..3 {
+                    if let Ok(mut h) = RawConn::connect(front) {
+                        let _ = h.write_all(b"GET /hold HTTP/1.1\r\nHost: lim.test\r\n\r\n", Duration::from_secs(1));
+                        let ho = observe(&mut h, Instant::now(), Duration::from_secs(3), Duration::ZERO);
+                        if ho.status == Some(200) {
+                            holders.push(h);
+                            held = true;
+                            break;
+                        }
                     }
-                    holders.push(h);
+                    thread::sleep(Duration::from_millis(300));
+                }
+                if !held {
+                    run.tags.push("inconclusive:limit-holder-setup-failed".into());
+                    run.out.push("obs inconclusive".into());
+                    continue;
                 }
             }
             let first_on_conn = conn.is_none();
@@ -1075,8 +1097,11 @@ impl Area for Faults {
                 match RawConn::connect(front) {
                     Ok(c) => conn = Some(c),
                     Err(e) => {
-                        run.oracle.push(("front-connect-failed".into(), format!("{e}")));
-                        run.out.push("obs connect-failed/closed".into());
+                        // the request never went on the wire; a worker that really stopped
+                        // accepting is still reported by the `worker-not-alive` check below
+                        let _ = e;
+                        run.tags.push("inconclusive:front-connect-failed".into());
+                        run.out.push("obs inconclusive".into());
                         continue;
                     }
                 }
@@ -1330,14 +1355,14 @@ fn main() {
                     .unwrap_or(0);
                 let n = v["evaluations"].as_u64().unwrap_or(0);
                 if inc * 20 > n.max(20) {
-                    let f = serde_json::json!({"kind": "oracle", "class": "too-many-inconclusive-cases",
+                    let f = serde_json::json!({"kind": "oracle", "class": "harness-inconclusive",
                         "detail": format!("{inc} inconclusive requests in {n} cases (machine overloaded: scripted peers or sozu not scheduled on time)"),
                         "case": -1, "ops": [], "impl_out": [], "model_out": []});
                     if let Some(a) = v["failures"].as_array_mut() {
                         a.push(f);
                     }
                     let _ = std::fs::write(&args.out, serde_json::to_string_pretty(&v).unwrap());
-                    println!("FAIL oracle too-many-inconclusive-cases {inc} of {n}");
+                    println!("FAIL oracle harness-inconclusive {inc} of {n}");
                     rc = 1;
                 }
             }
